@@ -175,10 +175,13 @@ func Routing(w *world.World, raws []json.RawMessage) ([]interface{}, error) {
 				continue
 			}
 			q := &c.Queries[i]
-			hname := "rt:" + strings.Join(q.Names, ",")
+			// one running server whose location list is updated from query to query (as a reload does)
+			hname := "rt:live"
 			if !handlers[hname] {
 				w.AddHandler(hname, server.ServerOption{Cache: "rt", Locations: q.Names})
 				handlers[hname] = true
+			} else {
+				w.UpdateHandler(hname, server.ServerOption{Cache: "rt", Locations: q.Names})
 			}
 			q.seen = ""
 			r := w.DoCase("", hname, "POST", q.Host, q.URI, nil, q)
